@@ -43,7 +43,9 @@ use super::*;
 // il::ProgramLocation (lib/il/location.rs) is only a payload of falcon::Error here: opaque stand-in
 #[verifier::external_body] pub struct ProgramLocation { _p: () }
 //@ include units/C15/il_core.rs
+use super::graph::{Vertex as GraphVertexTrait, Edge as GraphEdgeTrait}; // index_spec / head_spec / tail_spec in ghost code
 //@ include units/C15/block_edit.rs
+//@ include units/C15/cfg_import.rs
 //@ include units/C15/cfg_edit.rs
 proof fn vf_canary_il() ensures false {}
 } // mod il
